@@ -4,7 +4,7 @@ CONSTANTS
   Dirs = {"<", ">"}
   MaxDirs = 3
   FieldLens = {1, 4, 11}
-  Opts = {"", "~"}
+  Opts = {"", "~", "#"}
   EqLens = {2}
   ByteVals = {47}
   Stars = TRUE
